@@ -216,7 +216,12 @@ def bounded(ctx, b):
                                   stdout=subprocess.PIPE, stderr=subprocess.PIPE, text=True)) for s in seeds]
     digests = []
     for s, pr in procs:
-        out, err = pr.communicate(timeout=600)
+        try:
+            out, err = pr.communicate(timeout=300)
+        except subprocess.TimeoutExpired:
+            pr.kill()
+            out, err = pr.communicate()
+            err = (err or "") + "\nno result within 300 s"
         digests.append(json.loads(out) if pr.returncode == 0 else {"error": err[-300:]})
     for key in sorted(digests[0]):
         vals = {d.get(key) for d in digests}
